@@ -1,13 +1,23 @@
 """C05 -- listing tables hold exactly the numbers printed in the listing file.
 
-tie: H.  The line-level functions of t2listing.py that turn printed rows into cells
-(start_of_values, parse_table_line, read_table_line_TOUGH2/AUTOUGH2, key_from_line) are
-hand-modelled in coq/C05/Model.v; every call the real reader makes to them while opening
-and stepping through the shipped listings (and value-perturbed copies) is captured from
-outside and replayed through the extracted model.  The oracle (c05_oracle.py) reads the
-files independently (Fortran token rule = the Coq specification `fortran_tokens`, tied to
-its Python twin on every row) and evaluates the property statement on what the reader
-exposes."""
+tie: H, at two levels.
+LINE level: the functions of t2listing.py that turn printed rows into cells (start_of_values,
+parse_table_line, read_table_line_TOUGH2/AUTOUGH2, key_from_line) are hand-modelled in
+coq/C05/Model.v; every call the real reader makes to them while opening and stepping through the
+shipped listings (and value-perturbed copies) is captured from outside and replayed through the
+extracted model.
+FILE level: the whole reader (setup_pos, read_header, setup_table, next_table, setup_tables,
+read_table, skip_table, read_tables, set_index; TOUGH2 family, TOUGH+ and AUTOUGH2) is hand-modelled
+over a list of lines in coq/C05/Reader.v; t2listing(file, skip_tables) followed by index = i (positive
+and negative) is run on the real reader and on the extracted model for every shipped listing, skipped
+subsets, value-perturbed copies and the demonstration listing of Witness2.v, and table structures and
+every cell are compared.  The listings are abstracted by an independent scan (c05_file.tag_lines) into
+the generative shape of the whole-file theorem and the verified checker CheckT2.file_check decides
+which of them the theorem applies to.
+The oracle (c05_oracle.py) reads the files independently (Fortran token rule = the Coq specification
+`fortran_tokens`, tied to its Python twin on every row) and evaluates the property statement on what
+the reader exposes, at every result time reached by index, negative index, first/last, next/prev and
+the time and step setters."""
 import os, sys, json, struct, time, random, multiprocessing
 import vf
 
@@ -41,7 +51,7 @@ def make_jobs(ctx, files, root, deep=False):
             jobs.append(dict(src=f, rel=os.path.relpath(f, root), subs=None, seed=0, times='all',
                              skips=64 if th else 16, addr_stride=1, tok_stride=1))
     plan = [('directed15', 2 if th else 1), ('directed-neg2', 2 if th else 1), ('first-rows', 6 if th else 2),
-            ('layout', 8 if th else 3), ('random', 70 if th else 10)]
+            ('layout', 8 if th else 3), ('random', 70 if th else 7)]
     for f in files:
         rel = os.path.relpath(f, root)
         for mode, n in plan:
@@ -112,16 +122,17 @@ def file_level(ctx, exe, files, root, results):
     for r in results:
         for k in r['stats']:
             if k.startswith('sim_'): sims[r['rel']] = k[4:]
-    demo, err = W.run_exe(exe, ['demo\t-'])
-    if demo is None or not demo or not demo[0]:
-        ctx.proof_failures.append({'kind': 'proof', 'name': 'demo-listing', 'detail': 'the driver did not return the demonstration listing: ' + err})
+    demo, err = W.run_exe(exe, ['demo\t-', 'demo\tA'])
+    if demo is None or len(demo) != 2 or not demo[0] or not demo[1]:
+        ctx.proof_failures.append({'kind': 'proof', 'name': 'demo-listing', 'detail': 'the driver did not return the demonstration listings: ' + err})
     else:
         jobs.append(dict(rel='(Witness2.v demo listing)', lines=demo[0].split(','), skips='all', fchk=True, exe=exe, sim='TOUGH2', size=0, demo=True))
+        jobs.append(dict(rel='(Witness3.v AUTOUGH2 demo listing)', lines=demo[1].split(','), skips='all', fchk=True, exe=exe, sim='AUTOUGH2', size=0, demo=True))
     for f in files:
         rel = os.path.relpath(f, root)
         size = os.path.getsize(f)
-        fam = not (rel.startswith('AUTOUGH2') or rel.startswith('TOUGHplus'))
-        jobs.append(dict(rel=rel, src=f, skips='all' if th else ('some' if size < 600000 else 'none'), fchk=fam, exe=exe, sim=sims.get(rel), size=size))
+        fam = not rel.startswith('TOUGHplus')
+        jobs.append(dict(rel=rel, src=f, skips='all' if th else ('some' if size < 400000 else 'none'), fchk=fam, exe=exe, sim=sims.get(rel), size=size))
     # value-perturbed copies (substitution lists found by the first pass), smaller files first
     var = [r for r in results if r.get('variant') and r.get('subs')]
     per_file = {}
@@ -129,7 +140,7 @@ def file_level(ctx, exe, files, root, results):
         k = per_file.get(r['rel'], 0)
         if k >= (6 if th else 1): continue
         src = os.path.join(root, r['rel'])
-        if not th and os.path.getsize(src) >= 600000: continue
+        if not th and os.path.getsize(src) >= 400000: continue
         per_file[r['rel']] = k + 1
         jobs.append(dict(rel=r['rel'], src=src, subs=r['subs'], skips='none', fchk=False, exe=exe, sim=sims.get(r['rel']), size=os.path.getsize(src)))
     jobs.sort(key=lambda j: -j['size'])
@@ -154,7 +165,7 @@ def file_level(ctx, exe, files, root, results):
         if j.get('demo') and not (r['fchk'] or '').startswith('INCLASS'):
             ctx.proof_failures.append({'kind': 'correspondence', 'name': 'demo-listing-in-class', 'detail': str(r['fchk'])})
     ctx.corr_cases(FILE_CORR, ncase, result_set_visits=visits, cells_compared=cells, listings=len(jobs))
-    ctx.hyp_met['listing_codec_law'] = {'tough2_family_listings_checked': len(inclass) + len(outclass),
+    ctx.hyp_met['listing_codec_law'] = {'tough2_family_and_autough2_listings_checked': len(inclass) + len(outclass),
                                         'in_the_class_of_the_theorem(file_check=Some)': sorted(inclass),
                                         'outside_the_class': outclass}
     ctx.log('file level: %d open/index runs, %d result-set visits, %d cells; in class: %d, outside: %s' % (ncase, visits, cells, len(inclass), outclass))
@@ -170,16 +181,20 @@ def run(ctx):
                 'every exposed table x every row; skip_tables subsets (quick: first 16 by size; thorough: all <= 2^5); value-perturbed copies in '
                 'which printed numbers are rewritten in place by numbers of the same printed form and field width (other digits, zero, negative / '
                 'positive, no-letter 3-digit exponent, back to E form), chosen at random (1..60 cells per copy, first/last column biased) and '
-                'directed at the first row of each table, at the layout (longest) row and at an abutting cell of the layout row; a case is '
-                'distinct by (file, substitution list)')
+                'directed at the first row of each table, at the layout (longest) row and at an abutting cell of the layout row; every result '
+                'time is reached by index = i and again by index = i - n, first()/last(), next()/prev(), time and step setters (exact values and '
+                'values outside the range), each from another position; a case is distinct by (file, substitution list)')
     ctx.trusted += ['Coq 8.16.1 kernel (coqc); vm_compute only on closed terms',
                     'hand model coq/C05/Model.v of start_of_values / parse_table_line / read_table_line_* / key_from_line (line-level transcription, replayed against every captured call of the real reader on this run)',
+                    'hand model coq/C05/Reader.v of the file-level reader (all simulator families; lines as readline() returns them, positions as remaining lines), run against t2listing(file, skip_tables) + index = i on every shipped listing, skipped subsets and perturbed copies on this run; the simulator name is taken from the real reader (detect_simulator is not modelled)',
+                    'tools/props/c05_file.py tag_lines (independent abstraction of a listing into result sets / tables / rows): only proposes; coq/C05/CheckT2.v file_check (proved sound) and the equality file_from(sets) = lines decide',
                     'PTBase.PyStr / PyNum and PTModel.Fortran (fortran_float, proved equal to the AST translation of fixed_format_file.fortran_float by C16)',
                     'extraction: ExtrOcamlBasic + ExtrOcamlString, OCaml 4.13.1, ocaml/main.ml',
                     "CPython's strtod (decimal text -> double), identical on both sides of every comparison",
                     'the oracle reader tools/props/c05_oracle.py (independent of PyTOUGH; its token rule is tied to the Coq specification fortran_tokens on every row)']
     ctx.assumptions += ['listing text is ASCII (str.isdigit / whitespace on non-ASCII latin-1 characters are outside the model)',
-                        'file-level control flow of the reader (simulator detection, setup_table_*, read_tables_*, skip_table_*) is covered by the oracle sweep and the captured-call correspondence, not by a Coq model',
+                        'file-level theorems are proved for the TOUGH2 family (TOUGH2, TOUGH3, TOUGHREACT) on listings of the generative shape of coq/C05/FileT2.v (uniform result sets, strictly increasing printed indices, tables ending in an @@@@@ separator, no EOS7c mass-flow block); TOUGH2-MP, TOUGH+ and AUTOUGH2 readers are modelled and run against the implementation but not proved about',
+                        'simulator detection, setup_short_indices and history() are outside the file-level model',
                         'rows printed more than once (TOUGH2-MP border rows, repeated AUTOUGH2 rows): the exposed row must equal one of the printed rows with that key']
     root, files = listing_files(ctx.repo)
     if len(files) != 37: ctx.log('note: %d listing files found (37 expected)' % len(files))
@@ -187,7 +202,7 @@ def run(ctx):
     ctx.stage()
     pool = multiprocessing.Pool(vf.NPROC)                # forked before any thread exists
     async_res = pool.map_async(W.process, jobs, chunksize=1)
-    ok = ctx.coq_build(props=('Props.v', 'Props2.v'), timeout=1500)
+    ok = ctx.coq_build(props=('Props.v', 'Props2.v', 'Props3.v'), timeout=1500)
     exe = vf.build_driver(ctx) if os.path.exists(os.path.join(ctx.build, 'Drv.ml')) else None
     if exe is None and ok:
         ctx.proof_failures.append({'kind': 'proof', 'name': 'extraction', 'detail': 'Drv.ml was not produced'})
